@@ -796,16 +796,16 @@ def c19_plan(tier):
     pols = list(POLICIES)
     add = plan.append
     if tier == "quick":
-        # h=2: EVERY graph with n<=3, m<=2 x EVERY policy (CSR build)
-        for g in small2:
+        # h=2: EVERY graph with n<=3, m<=3 x EVERY policy (CSR build)
+        for g in small_graphs(3, 3):
             for pol in pols:
                 add((2, 1, make_case(g, pol, "csr", 0, "void")))
-        # h=3: every such graph x one policy per family
+        # h=3: every such graph x every policy
         for g in small2:
-            for pol in ("oec", "iec", "hovc", "cvc", "ginger-o", "sugar-o"):
+            for pol in pols:
                 add((3, 1, make_case(g, pol, "csr", 0, "void")))
-        # CSC (transposed) builds: every third graph x every policy
-        for g in small2[::3]:
+        # CSC (transposed) builds: every graph x every policy
+        for g in small2:
             for pol in pols:
                 add((2, 1, make_case(g, pol, "csc", 0, "void")))
         # structured graphs, uint32 edge data (three of them with 2 threads
@@ -848,6 +848,18 @@ def c19_plan(tier):
             for g in small3:
                 for pol in pols:
                     add((h, 1, make_case(g, pol, "csr", 0, "void")))
+        # every graph with n<=3 and exactly 4 edges (495 more), and every
+        # graph with exactly 4 nodes and m<=2 (153; four hosts get one node
+        # each): every policy, CSR
+        for g in small_graphs(3, 4):
+            if len(g.edges) == 4:
+                for pol in pols:
+                    add((2, 1, make_case(g, pol, "csr", 0, "void")))
+        for g in small_graphs(4, 2):
+            if g.n == 4:
+                for pol in pols:
+                    for h in (2, 3, 4):
+                        add((h, 1, make_case(g, pol, "csr", 0, "void")))
         # every graph n<=3, m<=2: CSC builds, uint32 data, 1 host
         for g in small2:
             for pol in pols:
